@@ -31,6 +31,29 @@ UPSTREAM = ('plain', 'map', 'reversed', 'concat', 'items', 'reversed-touched',
             'nested-touched')
 
 
+SORT_FORMS = ('kw', 'pos', 'pos2', 'allkw')
+
+
+def call_sort(ds, key_fn, sort_fn, reverse, form):
+    """ds.sort(...) in one of the call forms the signature
+    sort(key_fn=None, sort_fn=sorted, reverse=False) allows."""
+    if form == 'pos' or (form == 'pos2' and reverse):
+        return ds.sort(key_fn, sort_fn or sorted, reverse)
+    if form == 'pos2':
+        return ds.sort(key_fn, sort_fn or sorted)
+    if form == 'allkw':
+        return ds.sort(key_fn=key_fn, sort_fn=sort_fn or sorted, reverse=reverse)
+    kw = {} if sort_fn is None else {'sort_fn': sort_fn}
+    if key_fn is None:
+        return ds.sort(reverse=reverse, **kw)
+    return ds.sort(key_fn, reverse=reverse, **kw)
+
+
+def form_for(*parts):
+    from ..common import stable_hash
+    return SORT_FORMS[stable_hash(repr(parts)) % len(SORT_FORMS)]
+
+
 def key_of(i, n):
     """Key of example i in a dict-backed dataset of n examples (unique, not
     in sorted order)."""
@@ -132,7 +155,9 @@ def check_sort(ld, vals, backing, upstream, reverse, res):
     res.case(('sort', tuple(vals), backing, upstream, reverse), nontrivial)
     sig = {'op': 'sort', 'keyed': True}
     try:
-        out_ds = ds.sort(lambda e: get(e)[1], reverse=reverse)
+        case['call_form'] = form_for(tuple(vals), backing, upstream, reverse)
+        res.seen('sort_call_forms', case['call_form'])
+        out_ds = call_sort(ds, lambda e: get(e)[1], None, reverse, case['call_form'])
         out = [get(e) for e in out_ds]
     except BaseException as e:
         kind = ('sort-compared-examples' if isinstance(e, TypeError)
@@ -182,8 +207,9 @@ def check_custom_sort_fn(ld, vals, reverse, res):
 
     ds, get = make(ld, vals, 'dict', 'plain')
     try:
-        out = [get(e) for e in ds.sort(lambda e: e['v'], sort_fn=sort_fn,
-                                       reverse=reverse)]
+        case['call_form'] = form_for('fn', tuple(vals), reverse)
+        out = [get(e) for e in call_sort(ds, lambda e: e['v'], sort_fn, reverse,
+                                         case['call_form'])]
     except BaseException as e:
         res.violation('sort-raised', case, exc_sig(e), sig={'op': 'sort_fn'})
         return
@@ -201,7 +227,7 @@ def check_custom_sort_fn(ld, vals, reverse, res):
     # key-less with a custom sort_fn: it must see the keys only
     seen.clear()
     try:
-        out = [e['id'] for e in ds.sort(sort_fn=sort_fn, reverse=reverse)]
+        out = [e['id'] for e in call_sort(ds, None, sort_fn, reverse, case['call_form'])]
     except BaseException as e:
         res.violation('sort-raised', case, exc_sig(e), sig={'op': 'sort_fn', 'keyed': False})
         return
@@ -224,7 +250,8 @@ def check_keyless(ld, perm, reverse, upstream, res):
         ds = ds[::-1]
     sig = {'op': 'sort', 'keyed': False, 'reverse': reverse}
     try:
-        s = ds.sort(reverse=reverse)
+        case['call_form'] = form_for('keyless', tuple(perm), reverse, upstream)
+        s = call_sort(ds, None, None, reverse, case['call_form'])
         out = [e['id'] for e in s]
         keys = list(s.keys()) if n else []
     except BaseException as e:
